@@ -97,8 +97,14 @@ class BuckGophermapHandler(BaseHandler):
 
                     if entry.gethost() is None and entry.getport() is None:
                         # If we're using links on THIS server, try to fill
-                        # it in for gopher+.
-                        if self.vfs.exists(selector):
+                        # it in for gopher+.  Only a selector that a request
+                        # could name is looked up: a link such as "../../x"
+                        # is listed as written, but nothing that may lie
+                        # outside the root is examined on its behalf.
+                        target = BaseHandler(
+                            selector, "", self.protocol, self.config, None, self.vfs
+                        )
+                        if target.isrequestsecure() and self.vfs.exists(selector):
                             entry.populatefromvfs(self.vfs, selector)
                     self.entries.append(entry)
                 else:  # Info line
